@@ -572,6 +572,28 @@ type c10panicErr struct{}
 
 func (c10panicErr) Error() string { panic("c10: the Error method of a sink's error panics") }
 
+// c10streamEncoder: a zapcore.ReflectedEncoder that streams: when a value
+// cannot be encoded, part of it has already been written.
+type c10streamEncoder struct{ w io.Writer }
+
+func (e c10streamEncoder) Encode(v any) error {
+	b, err := json.Marshal(v)
+	if err != nil {
+		_, _ = e.w.Write([]byte(`{"partial":[1,`))
+		return err
+	}
+	_, err = e.w.Write(append(b, '\n'))
+	return err
+}
+
+func c10enc(stream bool) zapcore.Encoder {
+	cfg := encCfg()
+	if stream {
+		cfg.NewReflectedEncoder = func(w io.Writer) zapcore.ReflectedEncoder { return c10streamEncoder{w} }
+	}
+	return zapcore.NewJSONEncoder(cfg)
+}
+
 // c10failEnc: an encoder (a registered third-party one, say) that cannot
 // encode: EncodeEntry reports an error for every entry.
 type c10failEnc struct {
@@ -629,6 +651,12 @@ func runC10(c *Ctx) {
 	simsync.SetPolicy(pick(g, simsync.PoolLIFO, simsync.PoolLIFO, simsync.PoolRandom), uint64(g.Draw(1<<16))+1, 0)
 	guardDone := guardOn(c)
 	defer guardDone()
+	// one run in four: the encoders use a reflected encoder that writes as it
+	// goes, so that a value it cannot encode leaves a partial rendering behind
+	streamRefl := g.Chance(4)
+	if streamRefl {
+		c.R.Probe("streaming reflected encoder")
+	}
 	nBranch := 1 + g.Weighted(2, 3, 2, 1)
 	if g.Chance(12) {
 		nBranch = 5 + g.Draw(5) // now and then a wide tee
@@ -688,13 +716,13 @@ func runC10(c *Ctx) {
 				setFail(s)
 			}
 			silent(s)
-			br.core = zapcore.NewCore(zapcore.NewJSONEncoder(encCfg()), zapcore.Lock(s), zapcore.DebugLevel)
+			br.core = zapcore.NewCore(c10enc(streamRefl), zapcore.Lock(s), zapcore.DebugLevel)
 			if encFails {
 				// the failure is that of the core's encoder: nothing reaches the
 				// destination (not judged), the error is reported like a sink's
 				br.mode = 6
 				s.WritePlan = []zsim.Outcome{{}} // marks the sink as not judged
-				br.core = zapcore.NewCore(c10failEnc{zapcore.NewJSONEncoder(encCfg()), injErr}, zapcore.Lock(s), zapcore.DebugLevel)
+				br.core = zapcore.NewCore(c10failEnc{c10enc(streamRefl), injErr}, zapcore.Lock(s), zapcore.DebugLevel)
 				c.R.Probe("a branch whose encoder fails")
 			}
 			if hookFails {
@@ -728,7 +756,7 @@ func runC10(c *Ctx) {
 				}
 			}
 			silent(bb)
-			br.core = zapcore.NewCore(zapcore.NewJSONEncoder(encCfg()), zap.CombineWriteSyncers(a, bb), zapcore.DebugLevel)
+			br.core = zapcore.NewCore(c10enc(streamRefl), zap.CombineWriteSyncers(a, bb), zapcore.DebugLevel)
 		case 2:
 			br.custom = &c10core{fail: br.failing, errText: br.errText, err: injErr}
 			br.mode = 4
